@@ -626,6 +626,21 @@ def check(pid, tier, seed, replay=None):
         "repo": REPO,
     }
     cov.update(res.extra)
+    # schema hygiene: components may put free text into extra keys that the schema types
+    if not isinstance(cov.get("exhaustive"), bool):
+        cov["exhaustive_note"] = cov.get("exhaustive")
+        cov["exhaustive"] = bool(res.exhaustive) or bool(cov["exhaustive_note"])
+    for k in ("evaluations", "distinct_nontrivial", "states", "transitions", "traces_validated_against_impl", "obligations", "discharged", "programs", "disagreements_checked"):
+        if k in cov and not isinstance(cov[k], int):
+            cov[k + "_note"] = cov[k]
+            cov[k] = int(cov[k]) if str(cov[k]).isdigit() else 0
+    for k in ("explanation", "rule", "checker_cmd"):
+        if k in cov and not isinstance(cov[k], str):
+            cov[k] = str(cov[k])
+    if "samples" in cov and not isinstance(cov["samples"], list):
+        cov["samples"] = [cov["samples"]]
+    if "trusted_base" in cov and not isinstance(cov["trusted_base"], list):
+        cov["trusted_base"] = [str(cov["trusted_base"])]
     ev = {
         "property_id": pid, "tier": tier, "seed": seed, "level": level, "coverage": cov,
         "assumptions": list(prop.get("assumptions", [])),
